@@ -1,5 +1,6 @@
 // ---- abstract syntax.  Statement-level nodes are the real types of src/frontend/ast.rs; what the sub-parsers that are
 // not under contract produce (expressions, names, poetic literals, function definitions) is opaque.
+#[verifier::external_body] pub struct PrimaryExpression { _p: u8 }
 #[verifier::external_body] pub struct AssignmentLHS { _p: u8 }
 #[verifier::external_body] pub struct AssignmentRHS { _p: u8 }
 #[verifier::external_body] pub struct ArrayPopExpr { _p: u8 }
